@@ -1,13 +1,670 @@
-//! C04 smoke
+//! C04: addition, subtraction, negation are exact, and carry / borrow / overflow / `none` / panic is reported
+//! exactly when the true result lies outside [0, 2^BITS).
+//!
+//! What is here: the forms the Verus engine cannot take - trait impls (`CheckedAdd/Sub`, `WrappingAdd/Sub/Neg`),
+//! operators (by value, by reference, assigning), the `Wrapping<T>` / `Checked<T>` wrappers, and every `BoxedUint`
+//! form (inherent, trait, operator, mixed with `Uint<N>` / primitives) - all operand values symbolic.
+//! Widths: Limb, U64, U128 (quick), U192 (thorough); BoxedUint precisions (1,1), (1,2), (2,1), (2,2) limbs.
+//! Oracle: plain u64/u128 arithmetic (`overflowing_add`, `overflowing_sub`, `wrapping_neg`), for U192 a
+//! (u128, u64) pair with explicit carry.
+//!
+//! Panic harnesses are *strict*: after the call that has to panic they run `no_return()`, which under Kani raises a
+//! non-panic failure. `#[kani::should_panic]` then fails unless every input satisfying the assumption panics.
 use crate::*;
+use crate::util::*;
 use crypto_bigint::*;
+use subtle::{Choice, CtOption};
+
+/// Reaching this point makes a `#[kani::should_panic]` harness fail (failure class other than "assertion");
+/// in the replay driver it is a no-op, so the body returns normally = "expected panic did not happen".
+#[cfg(kani)]
+fn no_return() { unsafe { let _ = 255u8.unchecked_add(1); } }
+#[cfg(not(kani))]
+fn no_return() {}
+
+fn opt<T>(o: CtOption<T>) -> Option<T> { Option::from(o) }
+fn ck<T>(v: T, valid: bool) -> Checked<T> { Checked(CtOption::new(v, Choice::from(valid as u8))) }
+
+fn u192_of(x: &U192) -> (u128, u64) { let w = x.as_words(); (w[0] as u128 | ((w[1] as u128) << 64), w[2]) }
+fn mk192p(lo: u128, hi: u64) -> U192 { U192::from_words([lo as u64, (lo >> 64) as u64, hi]) }
+fn add192(a: (u128, u64), b: (u128, u64)) -> ((u128, u64), bool) {
+    let (lo, c) = a.0.overflowing_add(b.0);
+    let t = a.1 as u128 + b.1 as u128 + c as u128;
+    ((lo, t as u64), (t >> 64) != 0)
+}
+fn sub192(a: (u128, u64), b: (u128, u64)) -> ((u128, u64), bool) {
+    let (lo, br) = a.0.overflowing_sub(b.0);
+    let t = (a.1 as u128).wrapping_sub(b.1 as u128).wrapping_sub(br as u128);
+    ((lo, t as u64), (t >> 64) != 0)
+}
+
+/// every non-panicking route to a + b: `$exp` = (a + b) mod 2^BITS, `$ovf` = a + b >= 2^BITS
+macro_rules! add_forms {
+    ($s:ident, $T:ty, $a:expr, $b:expr, $exp:expr, $ovf:expr) => {{
+        let (a, b, exp, ovf): ($T, $T, $T, bool) = ($a, $b, $exp, $ovf);
+        // traits
+        match opt(CheckedAdd::checked_add(&a, &b)) { Some(v) => { assert!(!ovf); assert!(v == exp); } None => assert!(ovf) }
+        assert!(WrappingAdd::wrapping_add(&a, &b) == exp);
+        // Wrapping<T>
+        let (wa, wb) = (Wrapping(a), Wrapping(b));
+        assert!((wa + wb).0 == exp);
+        assert!((wa + &wb).0 == exp);
+        assert!((&wa + wb).0 == exp);
+        assert!((&wa + &wb).0 == exp);
+        let mut w = wa; w += wb; assert!(w.0 == exp);
+        let mut w = wa; w += &wb; assert!(w.0 == exp);
+        // Checked<T>: some exactly when both operands are some and the sum fits (none is sticky)
+        let (va, vb) = ($s.bool(), $s.bool());
+        let (ca, cb) = (ck(a, va), ck(b, vb));
+        let want = va && vb && !ovf;
+        let mut c5 = ca; c5 += cb;
+        let mut c6 = ca; c6 += &cb;
+        let rs = [ca + cb, ca + &cb, &ca + cb, &ca + &cb, c5, c6];
+        let mut i = 0;
+        while i < 6 {
+            match opt(rs[i].0) { Some(v) => { assert!(want); assert!(v == exp); } None => assert!(!want) }
+            i += 1;
+        }
+    }};
+}
+macro_rules! sub_forms {
+    ($s:ident, $T:ty, $a:expr, $b:expr, $exp:expr, $ovf:expr) => {{
+        let (a, b, exp, ovf): ($T, $T, $T, bool) = ($a, $b, $exp, $ovf);
+        match opt(CheckedSub::checked_sub(&a, &b)) { Some(v) => { assert!(!ovf); assert!(v == exp); } None => assert!(ovf) }
+        assert!(WrappingSub::wrapping_sub(&a, &b) == exp);
+        let (wa, wb) = (Wrapping(a), Wrapping(b));
+        assert!((wa - wb).0 == exp);
+        assert!((wa - &wb).0 == exp);
+        assert!((&wa - wb).0 == exp);
+        assert!((&wa - &wb).0 == exp);
+        let mut w = wa; w -= wb; assert!(w.0 == exp);
+        let mut w = wa; w -= &wb; assert!(w.0 == exp);
+        let (va, vb) = ($s.bool(), $s.bool());
+        let (ca, cb) = (ck(a, va), ck(b, vb));
+        let want = va && vb && !ovf;
+        let mut c5 = ca; c5 -= cb;
+        let mut c6 = ca; c6 -= &cb;
+        let rs = [ca - cb, ca - &cb, &ca - cb, &ca - &cb, c5, c6];
+        let mut i = 0;
+        while i < 6 {
+            match opt(rs[i].0) { Some(v) => { assert!(want); assert!(v == exp); } None => assert!(!want) }
+            i += 1;
+        }
+    }};
+}
+/// `Uint` inherent saturating / carry forms and negation forms; `$neg` = (2^BITS - a) mod 2^BITS
+macro_rules! uint_sat_neg_forms {
+    ($T:ty, $a:expr, $b:expr, $sum:expr, $covf:expr, $diff:expr, $bovf:expr, $neg:expr) => {{
+        let (a, b): ($T, $T) = ($a, $b);
+        assert!(a.saturating_add(&b) == if $covf { <$T>::MAX } else { $sum });
+        assert!(a.saturating_sub(&b) == if $bovf { <$T>::ZERO } else { $diff });
+        let (r, c) = a.adc(&b, Limb::ZERO); assert!(r == $sum && c.0 == $covf as u64);
+        let (r, c) = a.sbb(&b, Limb::ZERO); assert!(r == $diff && c.0 == if $bovf { u64::MAX } else { 0 });
+        let neg: $T = $neg;
+        assert!(WrappingNeg::wrapping_neg(&a) == neg);
+        let (n, carry) = a.carrying_neg();
+        assert!(n == neg);
+        assert!(bool::from(carry) == (a == <$T>::ZERO));
+        assert!(a.wrapping_neg_if(ConstChoice::TRUE) == neg);
+        assert!(a.wrapping_neg_if(ConstChoice::FALSE) == a);
+        assert!((-Wrapping(a)).0 == neg);
+        assert!((-&Wrapping(a)).0 == neg);
+    }};
+}
+/// operator routes on `Uint`: 0 `a + b`, 1 `a + &b`, 2 `a += b`, 3 `a += &b`
+fn uint_add_op<const L: usize>(form: u8, a: Uint<L>, b: Uint<L>) -> Uint<L> {
+    match form { 0 => a + b, 1 => a + &b, 2 => { let mut x = a; x += b; x } _ => { let mut x = a; x += &b; x } }
+}
+fn uint_sub_op<const L: usize>(form: u8, a: Uint<L>, b: Uint<L>) -> Uint<L> {
+    match form { 0 => a - b, 1 => a - &b, 2 => { let mut x = a; x -= b; x } _ => { let mut x = a; x -= &b; x } }
+}
+
+// ---------------------------------------------------------------- BoxedUint helpers
+fn bx(n: usize, v: u128) -> BoxedUint {
+    if n == 1 { BoxedUint::from_words([v as u64]) } else { BoxedUint::from_words([v as u64, (v >> 64) as u64]) }
+}
+fn bmask(n: usize) -> u128 { if n == 1 { u64::MAX as u128 } else { u128::MAX } }
+/// precision is exactly `n` limbs and the value is `v`
+fn bx_is(x: &BoxedUint, n: usize, v: u128) -> bool {
+    if x.nlimbs() != n || x.bits_precision() != 64 * n as u32 { return false; }
+    let w = x.as_words();
+    if w[0] != v as u64 { return false; }
+    if n == 2 { w[1] == (v >> 64) as u64 } else { (v >> 64) == 0 }
+}
+/// a + b + cin over `n` limbs: (sum mod 2^(64n), carry word)
+fn ref_adc(n: usize, a: u128, b: u128, cin: u64) -> (u128, u64) {
+    if n == 1 {
+        let t = a + b + cin as u128;   // a, b < 2^64
+        (t as u64 as u128, (t >> 64) as u64)
+    } else {
+        let (t1, c1) = a.overflowing_add(b);
+        let (t2, c2) = t1.overflowing_add(cin as u128);
+        (t2, c1 as u64 + c2 as u64)
+    }
+}
+/// a - (b + borrow_in) over `n` limbs, borrow_in = top bit of the incoming borrow word: (difference, borrow mask)
+fn ref_sbb(n: usize, a: u128, b: u128, bin: u64) -> (u128, u64) {
+    let bi = (bin >> 63) as u128;
+    if n == 1 {
+        let t = a.wrapping_sub(b).wrapping_sub(bi);      // a, b < 2^64: borrow <=> t wrapped below zero
+        (t as u64 as u128, if (t >> 64) != 0 { u64::MAX } else { 0 })
+    } else {
+        let (t1, b1) = a.overflowing_sub(b);
+        let (t2, b2) = t1.overflowing_sub(bi);
+        (t2, if b1 || b2 { u64::MAX } else { 0 })
+    }
+}
+fn maxn(a: usize, b: usize) -> usize { if a > b { a } else { b } }
+
+/// adc / sbb / wrapping_* / checked_* (inherent and trait) for operand precisions (la, lb); result precision = max
+fn boxed_np<S: Src>(s: &mut S, la: usize, lb: usize) {
+    let a = s.u128() & bmask(la);
+    let b = s.u128() & bmask(lb);
+    let cin = s.u64();
+    let n = maxn(la, lb);
+    let (x, y) = (bx(la, a), bx(lb, b));
+    let (sum, carry) = ref_adc(n, a, b, cin);
+    let (r, c) = x.adc(&y, Limb(cin));
+    assert!(bx_is(&r, n, sum)); assert!(c.0 == carry);
+    let (diff, borrow) = ref_sbb(n, a, b, cin);
+    let (r, c) = x.sbb(&y, Limb(cin));
+    assert!(bx_is(&r, n, diff)); assert!(c.0 == borrow);
+    let (sum0, carry0) = ref_adc(n, a, b, 0);
+    let (diff0, borrow0) = ref_sbb(n, a, b, 0);
+    assert!(bx_is(&x.wrapping_add(&y), n, sum0));
+    assert!(bx_is(&WrappingAdd::wrapping_add(&x, &y), n, sum0));
+    assert!(bx_is(&x.wrapping_sub(&y), n, diff0));
+    assert!(bx_is(&WrappingSub::wrapping_sub(&x, &y), n, diff0));
+    match opt(x.checked_add(&y)) { Some(v) => { assert!(carry0 == 0); assert!(bx_is(&v, n, sum0)); } None => assert!(carry0 != 0) }
+    match opt(x.checked_sub(&y)) { Some(v) => { assert!(borrow0 == 0); assert!(bx_is(&v, n, diff0)); } None => assert!(borrow0 != 0) }
+}
+/// Wrapping<BoxedUint> `+` `-` through the generic impls (WrappingAdd / WrappingSub): precision = widest operand
+fn boxed_np_w<S: Src>(s: &mut S, la: usize, lb: usize) {
+    let a = s.u128() & bmask(la);
+    let b = s.u128() & bmask(lb);
+    let n = maxn(la, lb);
+    let sum0 = ref_adc(n, a, b, 0).0;
+    let diff0 = ref_sbb(n, a, b, 0).0;
+    let (wx, wy) = (Wrapping(bx(la, a)), Wrapping(bx(lb, b)));
+    assert!(bx_is(&(&wx + &wy).0, n, sum0));
+    assert!(bx_is(&(&wx - &wy).0, n, diff0));
+    assert!(bx_is(&(wx.clone() + wy.clone()).0, n, sum0));
+    assert!(bx_is(&(wx - wy).0, n, diff0));
+}
+/// `BoxedUint op BoxedUint`, all four by-value / by-reference combinations
+fn boxed_add_op(form: u8, x: &BoxedUint, y: &BoxedUint) -> BoxedUint {
+    match form { 0 => x.clone() + y.clone(), 1 => x.clone() + y, 2 => x + y.clone(), _ => x + y }
+}
+fn boxed_sub_op(form: u8, x: &BoxedUint, y: &BoxedUint) -> BoxedUint {
+    match form { 0 => x.clone() - y.clone(), 1 => x.clone() - y, 2 => x - y.clone(), _ => x - y }
+}
+/// in-place forms with a BoxedUint right-hand side: 0 `+=` value, 1 `+=` reference
+fn boxed_add_assign(form: u8, x: &BoxedUint, y: &BoxedUint) -> BoxedUint {
+    let mut r = x.clone();
+    match form { 0 => r += y.clone(), _ => r += y }
+    r
+}
+fn boxed_sub_assign(form: u8, x: &BoxedUint, y: &BoxedUint) -> BoxedUint {
+    let mut r = x.clone();
+    match form { 0 => r -= y.clone(), _ => r -= y }
+    r
+}
+/// `BoxedUint op Uint<L>`: 0 v+v, 1 v+&, 2 &+v, 3 &+&, 4 `op=` v, 5 `op=` &
+fn boxed_add_uint<const L: usize>(form: u8, x: &BoxedUint, y: Uint<L>) -> BoxedUint {
+    match form {
+        0 => x.clone() + y, 1 => x.clone() + &y, 2 => x + y, 3 => x + &y,
+        4 => { let mut r = x.clone(); r += y; r }
+        _ => { let mut r = x.clone(); r += &y; r }
+    }
+}
+fn boxed_sub_uint<const L: usize>(form: u8, x: &BoxedUint, y: Uint<L>) -> BoxedUint {
+    match form {
+        0 => x.clone() - y, 1 => x.clone() - &y, 2 => x - y, 3 => x - &y,
+        4 => { let mut r = x.clone(); r -= y; r }
+        _ => { let mut r = x.clone(); r -= &y; r }
+    }
+}
+/// `BoxedUint op primitive`: kind 0 u8, 1 u16, 2 u32, 3 u64, 4 u128 (`p` already truncated to the kind);
+/// form 0 value + p, 1 reference + p, 2 `op=` p
+fn boxed_add_prim(kind: u8, form: u8, x: &BoxedUint, p: u128) -> BoxedUint {
+    macro_rules! go { ($t:ty) => { match form { 0 => x.clone() + p as $t, 1 => x + p as $t, _ => { let mut r = x.clone(); r += p as $t; r } } } }
+    match kind { 0 => go!(u8), 1 => go!(u16), 2 => go!(u32), 3 => go!(u64), _ => go!(u128) }
+}
+fn boxed_sub_prim(kind: u8, form: u8, x: &BoxedUint, p: u128) -> BoxedUint {
+    macro_rules! go { ($t:ty) => { match form { 0 => x.clone() - p as $t, 1 => x - p as $t, _ => { let mut r = x.clone(); r -= p as $t; r } } } }
+    match kind { 0 => go!(u8), 1 => go!(u16), 2 => go!(u32), 3 => go!(u64), _ => go!(u128) }
+}
+fn prim_mask(kind: u8) -> u128 {
+    match kind { 0 => u8::MAX as u128, 1 => u16::MAX as u128, 2 => u32::MAX as u128, 3 => u64::MAX as u128, _ => u128::MAX }
+}
+
+// ---- BoxedUint harness bodies, parameterised by *concrete* operand precisions (a symbolic precision makes every
+// ---- limb loop unbounded for CBMC)
+fn boxed_ops_ok<S: Src>(s: &mut S, la: usize, lb: usize) {
+    let f = s.u8(); s.assume(f < 4);
+    let n = maxn(la, lb);
+    let a = s.u128() & bmask(la); let b = s.u128() & bmask(lb);
+    let (x, y) = (bx(la, a), bx(lb, b));
+    let (sum, carry) = ref_adc(n, a, b, 0);
+    let (diff, borrow) = ref_sbb(n, a, b, 0);
+    if carry == 0 { assert!(bx_is(&boxed_add_op(f, &x, &y), n, sum)); }
+    if borrow == 0 { assert!(bx_is(&boxed_sub_op(f, &x, &y), n, diff)); }
+    s.cover(carry == 0); s.cover(borrow == 0);
+}
+fn boxed_ops_panic<S: Src>(s: &mut S, la: usize, lb: usize, sub: bool) {
+    let f = s.u8(); s.assume(f < 4);
+    let a = s.u128() & bmask(la); let b = s.u128() & bmask(lb);
+    if sub { s.assume(a < b); let _ = boxed_sub_op(f, &bx(la, a), &bx(lb, b)); }
+    else { s.assume(ref_adc(maxn(la, lb), a, b, 0).1 != 0); let _ = boxed_add_op(f, &bx(la, a), &bx(lb, b)); }
+    no_return();
+}
+fn boxed_assign_ok<S: Src>(s: &mut S, la: usize, lb: usize) {
+    let a = s.u128() & bmask(la); let b = s.u128() & bmask(lb); let cin = s.u64();
+    let (x, y) = (bx(la, a), bx(lb, b));
+    let (sum, carry) = ref_adc(la, a, b, cin);
+    let mut r = x.clone(); let c = r.adc_assign(&y, Limb(cin));
+    assert!(bx_is(&r, la, sum) && c.0 == carry);
+    let (diff, borrow) = ref_sbb(la, a, b, cin);
+    let mut r = x.clone(); let c = r.sbb_assign(&y, Limb(cin));
+    assert!(bx_is(&r, la, diff) && c.0 == borrow);
+    let (sum0, carry0) = ref_adc(la, a, b, 0);
+    let (diff0, borrow0) = ref_sbb(la, a, b, 0);
+    let f = s.u8(); s.assume(f < 2);
+    if carry0 == 0 { assert!(bx_is(&boxed_add_assign(f, &x, &y), la, sum0)); }
+    if borrow0 == 0 { assert!(bx_is(&boxed_sub_assign(f, &x, &y), la, diff0)); }
+    s.cover(carry0 == 0); s.cover(borrow0 == 0);
+}
+fn boxed_wrapping_assign<S: Src>(s: &mut S, la: usize, lb: usize) {
+    let a = s.u128() & bmask(la); let b = s.u128() & bmask(lb);
+    let (x, y) = (bx(la, a), bx(lb, b));
+    let sum0 = ref_adc(la, a, b, 0).0; let diff0 = ref_sbb(la, a, b, 0).0;
+    let mut w = Wrapping(x.clone()); w += Wrapping(y.clone()); assert!(bx_is(&w.0, la, sum0));
+    let mut w = Wrapping(x.clone()); w += &Wrapping(y.clone()); assert!(bx_is(&w.0, la, sum0));
+    let mut w = Wrapping(x.clone()); w -= Wrapping(y.clone()); assert!(bx_is(&w.0, la, diff0));
+    let mut w = Wrapping(x); w -= &Wrapping(y); assert!(bx_is(&w.0, la, diff0));
+}
+fn boxed_assign_panic<S: Src>(s: &mut S, la: usize, lb: usize, sub: bool) {
+    let f = s.u8(); s.assume(f < 2);
+    let a = s.u128() & bmask(la); let b = s.u128() & bmask(lb);
+    if sub { s.assume(a < b); let _ = boxed_sub_assign(f, &bx(la, a), &bx(lb, b)); }
+    else { s.assume(ref_adc(la, a, b, 0).1 != 0); let _ = boxed_add_assign(f, &bx(la, a), &bx(lb, b)); }
+    no_return();
+}
+fn boxed_uint_rhs_ok<S: Src>(s: &mut S, la: usize, lb: usize) {
+    let f = s.u8(); s.assume(f < 6);
+    let a = s.u128() & bmask(la); let b = s.u128() & bmask(lb);
+    let x = bx(la, a);
+    let (sum, carry) = ref_adc(la, a, b, 0);
+    let (diff, borrow) = ref_sbb(la, a, b, 0);
+    if carry == 0 {
+        let r = if lb == 1 { boxed_add_uint(f, &x, mk64(b as u64)) } else { boxed_add_uint(f, &x, mk128(b)) };
+        assert!(bx_is(&r, la, sum));
+    }
+    if borrow == 0 {
+        let r = if lb == 1 { boxed_sub_uint(f, &x, mk64(b as u64)) } else { boxed_sub_uint(f, &x, mk128(b)) };
+        assert!(bx_is(&r, la, diff));
+    }
+    s.cover(carry == 0); s.cover(borrow == 0);
+}
+fn boxed_uint_rhs_panic<S: Src>(s: &mut S, la: usize, lb: usize, sub: bool) {
+    let f = s.u8(); s.assume(f < 6);
+    let a = s.u128() & bmask(la); let b = s.u128() & bmask(lb);
+    let x = bx(la, a);
+    if sub {
+        s.assume(a < b);
+        let _ = if lb == 1 { boxed_sub_uint(f, &x, mk64(b as u64)) } else { boxed_sub_uint(f, &x, mk128(b)) };
+    } else {
+        s.assume(ref_adc(la, a, b, 0).1 != 0);
+        let _ = if lb == 1 { boxed_add_uint(f, &x, mk64(b as u64)) } else { boxed_add_uint(f, &x, mk128(b)) };
+    }
+    no_return();
+}
+/// kinds 0..kmax: u8, u16, u32, u64, (u128)
+fn boxed_prim_rhs_ok<S: Src>(s: &mut S, la: usize, kmax: u8) {
+    let (kind, f) = (s.u8(), s.u8()); s.assume(kind < kmax && f < 3);
+    let a = s.u128() & bmask(la); let p = s.u128() & prim_mask(kind);
+    let x = bx(la, a);
+    let (sum, carry) = ref_adc(la, a, p, 0);
+    let (diff, borrow) = ref_sbb(la, a, p, 0);
+    if carry == 0 { assert!(bx_is(&boxed_add_prim(kind, f, &x, p), la, sum)); }
+    if borrow == 0 { assert!(bx_is(&boxed_sub_prim(kind, f, &x, p), la, diff)); }
+    s.cover(carry == 0 && kind == kmax - 1); s.cover(borrow == 0 && kind == 0);
+}
+fn boxed_prim_rhs_panic<S: Src>(s: &mut S, la: usize, kmax: u8, sub: bool) {
+    let (kind, f) = (s.u8(), s.u8()); s.assume(kind < kmax && f < 3);
+    let a = s.u128() & bmask(la); let p = s.u128() & prim_mask(kind);
+    if sub { s.assume(a < p); let _ = boxed_sub_prim(kind, f, &bx(la, a), p); }
+    else { s.assume(ref_adc(la, a, p, 0).1 != 0); let _ = boxed_add_prim(kind, f, &bx(la, a), p); }
+    no_return();
+}
+
 harnesses! {
     fn c00_warmup(s) { let x = s.u8(); assert!(x as u16 + 1 > 0); }
-    fn c04_smoke_adc(s) {
-        let a = s.u64(); let b = s.u64();
-        let (r, c) = U64::from_u64(a).adc(&U64::from_u64(b), Limb::ZERO);
+
+    // ------------------------------------------------------------------ Limb
+    /// Limb: CheckedAdd, WrappingAdd, Wrapping<Limb> + / +=, Checked<Limb> + / += (sticky none)
+    fn c04_limb_add_forms(s) {
+        let (a, b) = (s.u64(), s.u64());
         let t = a as u128 + b as u128;
-        assert!(r.as_words()[0] == t as u64);
-        assert!(c.0 == (t >> 64) as u64);
+        add_forms!(s, Limb, Limb(a), Limb(b), Limb(t as u64), (t >> 64) != 0);
+    }
+    /// Limb: CheckedSub, WrappingSub, Wrapping<Limb> - / -=, Checked<Limb> - / -=
+    fn c04_limb_sub_forms(s) {
+        let (a, b) = (s.u64(), s.u64());
+        let (d, bovf) = a.overflowing_sub(b);
+        sub_forms!(s, Limb, Limb(a), Limb(b), Limb(d), bovf);
+    }
+    /// Limb: saturating_*, wrapping_*, overflowing_add, adc / sbb with any carry / borrow word, WrappingNeg, -Wrapping
+    fn c04_limb_inherent_neg_forms(s) {
+        let (a, b, c) = (s.u64(), s.u64(), s.u64());
+        let (la, lb) = (Limb(a), Limb(b));
+        let t = a as u128 + b as u128;
+        let (sum, covf) = (Limb(t as u64), (t >> 64) != 0);
+        let (d, bovf) = a.overflowing_sub(b);
+        assert!(la.saturating_add(lb) == if covf { Limb::MAX } else { sum });
+        assert!(la.saturating_sub(lb) == if bovf { Limb::ZERO } else { Limb(d) });
+        assert!(la.wrapping_add(lb) == sum);
+        assert!(la.wrapping_sub(lb) == Limb(d));
+        let (r, cy) = la.overflowing_add(lb); assert!(r == sum && cy.0 == covf as u64);
+        let t3 = t + c as u128;
+        let (r, cy) = la.adc(lb, Limb(c)); assert!(r.0 == t3 as u64 && cy.0 == (t3 >> 64) as u64);
+        let t4 = (a as u128).wrapping_sub(b as u128).wrapping_sub((c >> 63) as u128);
+        let (r, bw) = la.sbb(lb, Limb(c)); assert!(r.0 == t4 as u64 && bw.0 == if (t4 >> 64) != 0 { u64::MAX } else { 0 });
+        assert!(WrappingNeg::wrapping_neg(&la).0 == 0u64.wrapping_sub(a));
+        assert!(la.wrapping_neg().0 == 0u64.wrapping_sub(a));
+        assert!((-Wrapping(la)).0.0 == 0u64.wrapping_sub(a));
+        assert!((-&Wrapping(la)).0.0 == 0u64.wrapping_sub(a));
+    }
+    /// Limb `+`, `-`, `- &`: no panic and exact when the result is in range
+    fn c04_limb_ops_ok(s) {
+        let (a, b) = (s.u64(), s.u64());
+        if let Some(t) = a.checked_add(b) { assert!((Limb(a) + Limb(b)).0 == t); }
+        if let Some(t) = a.checked_sub(b) { assert!((Limb(a) - Limb(b)).0 == t); assert!((Limb(a) - &Limb(b)).0 == t); }
+        s.cover(a.checked_add(b).is_some()); s.cover(a.checked_sub(b).is_some());
+    }
+    /// Limb `+` panics for every a + b >= 2^64
+    #[kani::should_panic]
+    fn c04_limb_add_panic(s) {
+        let (a, b) = (s.u64(), s.u64());
+        s.assume(a.checked_add(b).is_none());
+        let _ = Limb(a) + Limb(b);
+        no_return();
+    }
+    /// Limb `-` / `- &` panic for every a < b
+    #[kani::should_panic]
+    fn c04_limb_sub_panic(s) {
+        let (a, b) = (s.u64(), s.u64());
+        s.assume(a < b);
+        if s.bool() { let _ = Limb(a) - Limb(b); } else { let _ = Limb(a) - &Limb(b); }
+        no_return();
+    }
+
+    // ------------------------------------------------------------------ U64
+    /// U64: CheckedAdd, WrappingAdd, Wrapping<U64> + / +=, Checked<U64> + / += (sticky none)
+    fn c04_u64_add_forms(s) {
+        let (a, b) = (s.u64(), s.u64());
+        let t = a as u128 + b as u128;
+        add_forms!(s, U64, mk64(a), mk64(b), mk64(t as u64), (t >> 64) != 0);
+    }
+    /// U64: CheckedSub, WrappingSub, Wrapping<U64> - / -=, Checked<U64> - / -=
+    fn c04_u64_sub_forms(s) {
+        let (a, b) = (s.u64(), s.u64());
+        let (d, bovf) = a.overflowing_sub(b);
+        sub_forms!(s, U64, mk64(a), mk64(b), mk64(d), bovf);
+    }
+    /// U64: saturating_add/sub, adc/sbb, WrappingNeg, carrying_neg, wrapping_neg_if, -Wrapping
+    fn c04_u64_sat_neg_forms(s) {
+        let (a, b) = (s.u64(), s.u64());
+        let t = a as u128 + b as u128;
+        let (sum, covf) = (mk64(t as u64), (t >> 64) != 0);
+        let (d, bovf) = a.overflowing_sub(b);
+        uint_sat_neg_forms!(U64, mk64(a), mk64(b), sum, covf, mk64(d), bovf, mk64(a.wrapping_neg()));
+    }
+    /// U64 `+ +& += +=&` exact when a + b < 2^64
+    fn c04_u64_add_ops_ok(s) {
+        let (a, b) = (s.u64(), s.u64());
+        s.assume(a.checked_add(b).is_some()); s.cover(true);
+        let mut f = 0; while f < 4 { assert!(u64_of(&uint_add_op(f, mk64(a), mk64(b))) == a + b); f += 1; }
+    }
+    /// U64 `+ +& += +=&` all panic for every a + b >= 2^64
+    #[kani::should_panic]
+    fn c04_u64_add_ops_panic(s) {
+        let (a, b, f) = (s.u64(), s.u64(), s.u8());
+        s.assume(a.checked_add(b).is_none() && f < 4);
+        let _ = uint_add_op(f, mk64(a), mk64(b));
+        no_return();
+    }
+    fn c04_u64_sub_ops_ok(s) {
+        let (a, b) = (s.u64(), s.u64());
+        s.assume(a >= b); s.cover(true);
+        let mut f = 0; while f < 4 { assert!(u64_of(&uint_sub_op(f, mk64(a), mk64(b))) == a - b); f += 1; }
+    }
+    #[kani::should_panic]
+    fn c04_u64_sub_ops_panic(s) {
+        let (a, b, f) = (s.u64(), s.u64(), s.u8());
+        s.assume(a < b && f < 4);
+        let _ = uint_sub_op(f, mk64(a), mk64(b));
+        no_return();
+    }
+
+    // ------------------------------------------------------------------ U128
+    fn c04_u128_add_forms(s) {
+        let (a, b) = (s.u128(), s.u128());
+        let (t, covf) = a.overflowing_add(b);
+        add_forms!(s, U128, mk128(a), mk128(b), mk128(t), covf);
+    }
+    fn c04_u128_sub_forms(s) {
+        let (a, b) = (s.u128(), s.u128());
+        let (d, bovf) = a.overflowing_sub(b);
+        sub_forms!(s, U128, mk128(a), mk128(b), mk128(d), bovf);
+    }
+    fn c04_u128_sat_neg_forms(s) {
+        let (a, b) = (s.u128(), s.u128());
+        let (t, covf) = a.overflowing_add(b);
+        let (d, bovf) = a.overflowing_sub(b);
+        uint_sat_neg_forms!(U128, mk128(a), mk128(b), mk128(t), covf, mk128(d), bovf, mk128(a.wrapping_neg()));
+    }
+    fn c04_u128_add_ops_ok(s) {
+        let (a, b) = (s.u128(), s.u128());
+        s.assume(a.checked_add(b).is_some()); s.cover(true);
+        let mut f = 0; while f < 4 { assert!(u128_of(&uint_add_op(f, mk128(a), mk128(b))) == a + b); f += 1; }
+    }
+    #[kani::should_panic]
+    fn c04_u128_add_ops_panic(s) {
+        let (a, b, f) = (s.u128(), s.u128(), s.u8());
+        s.assume(a.checked_add(b).is_none() && f < 4);
+        let _ = uint_add_op(f, mk128(a), mk128(b));
+        no_return();
+    }
+    fn c04_u128_sub_ops_ok(s) {
+        let (a, b) = (s.u128(), s.u128());
+        s.assume(a >= b); s.cover(true);
+        let mut f = 0; while f < 4 { assert!(u128_of(&uint_sub_op(f, mk128(a), mk128(b))) == a - b); f += 1; }
+    }
+    #[kani::should_panic]
+    fn c04_u128_sub_ops_panic(s) {
+        let (a, b, f) = (s.u128(), s.u128(), s.u8());
+        s.assume(a < b && f < 4);
+        let _ = uint_sub_op(f, mk128(a), mk128(b));
+        no_return();
+    }
+
+    // ------------------------------------------------------------------ U192 (thorough)
+    fn c04t_u192_add_forms(s) {
+        let a = (s.u128(), s.u64()); let b = (s.u128(), s.u64());
+        let (t, covf) = add192(a, b);
+        add_forms!(s, U192, mk192p(a.0, a.1), mk192p(b.0, b.1), mk192p(t.0, t.1), covf);
+    }
+    fn c04t_u192_sub_forms(s) {
+        let a = (s.u128(), s.u64()); let b = (s.u128(), s.u64());
+        let (d, bovf) = sub192(a, b);
+        sub_forms!(s, U192, mk192p(a.0, a.1), mk192p(b.0, b.1), mk192p(d.0, d.1), bovf);
+    }
+    fn c04t_u192_sat_neg_forms(s) {
+        let a = (s.u128(), s.u64()); let b = (s.u128(), s.u64());
+        let (t, covf) = add192(a, b);
+        let (d, bovf) = sub192(a, b);
+        let (n, _) = sub192((0, 0), a);
+        let (x, y) = (mk192p(a.0, a.1), mk192p(b.0, b.1));
+        uint_sat_neg_forms!(U192, x, y, mk192p(t.0, t.1), covf, mk192p(d.0, d.1), bovf, mk192p(n.0, n.1));
+    }
+    fn c04t_u192_ops_ok(s) {
+        let a = (s.u128(), s.u64()); let b = (s.u128(), s.u64());
+        let (t, covf) = add192(a, b);
+        let (d, bovf) = sub192(a, b);
+        let (x, y) = (mk192p(a.0, a.1), mk192p(b.0, b.1));
+        let mut f = 0;
+        while f < 4 {
+            if !covf { assert!(u192_of(&uint_add_op(f, x, y)) == t); }
+            if !bovf { assert!(u192_of(&uint_sub_op(f, x, y)) == d); }
+            f += 1;
+        }
+        s.cover(!covf); s.cover(!bovf);
+    }
+    #[kani::should_panic]
+    fn c04t_u192_add_ops_panic(s) {
+        let a = (s.u128(), s.u64()); let b = (s.u128(), s.u64()); let f = s.u8();
+        s.assume(add192(a, b).1 && f < 4);
+        let _ = uint_add_op(f, mk192p(a.0, a.1), mk192p(b.0, b.1));
+        no_return();
+    }
+    #[kani::should_panic]
+    fn c04t_u192_sub_ops_panic(s) {
+        let a = (s.u128(), s.u64()); let b = (s.u128(), s.u64()); let f = s.u8();
+        s.assume(sub192(a, b).1 && f < 4);
+        let _ = uint_sub_op(f, mk192p(a.0, a.1), mk192p(b.0, b.1));
+        no_return();
+    }
+
+    // ------------------------------------------------------------------ BoxedUint
+    /// adc/sbb (any carry word), wrapping_*, CheckedAdd/Sub, WrappingAdd/Sub, Wrapping<BoxedUint> +/-;
+    /// precisions (1,1) (1,2) (2,1) (2,2); result precision = widest operand (rustdoc of `fold_limbs`)
+    fn c04_boxed_np_11(s) { boxed_np(s, 1, 1); }
+    fn c04_boxed_np_12(s) { boxed_np(s, 1, 2); }
+    fn c04_boxed_np_21(s) { boxed_np(s, 2, 1); }
+    fn c04_boxed_np_22(s) { boxed_np(s, 2, 2); }
+    fn c04_boxed_np_w_11(s) { boxed_np_w(s, 1, 1); }
+    fn c04_boxed_np_w_12(s) { boxed_np_w(s, 1, 2); }
+    fn c04_boxed_np_w_21(s) { boxed_np_w(s, 2, 1); }
+    fn c04_boxed_np_w_22(s) { boxed_np_w(s, 2, 2); }
+    /// wrapping_neg (inherent, WrappingNeg, `-Wrapping`): precision kept, value 2^P - a
+    fn c04_boxed_neg_1(s) {
+        let a = s.u64();
+        let x1 = bx(1, a as u128);
+        let n1 = a.wrapping_neg() as u128;
+        assert!(bx_is(&x1.wrapping_neg(), 1, n1));
+        assert!(bx_is(&WrappingNeg::wrapping_neg(&x1), 1, n1));
+        assert!(bx_is(&(-&Wrapping(x1.clone())).0, 1, n1));
+        assert!(bx_is(&(-Wrapping(x1)).0, 1, n1));
+    }
+    fn c04_boxed_neg_2(s) {
+        let a = s.u128();
+        let x2 = bx(2, a);
+        assert!(bx_is(&x2.wrapping_neg(), 2, a.wrapping_neg()));
+        assert!(bx_is(&WrappingNeg::wrapping_neg(&x2), 2, a.wrapping_neg()));
+        assert!(bx_is(&(-&Wrapping(x2.clone())).0, 2, a.wrapping_neg()));
+        assert!(bx_is(&(-Wrapping(x2)).0, 2, a.wrapping_neg()));
+    }
+    /// `BoxedUint + BoxedUint` / `-` (4 value/reference combinations): exact, precision = widest operand
+    fn c04_boxed_ops_ok_11(s) { boxed_ops_ok(s, 1, 1); }
+    fn c04_boxed_ops_ok_12(s) { boxed_ops_ok(s, 1, 2); }
+    fn c04_boxed_ops_ok_21(s) { boxed_ops_ok(s, 2, 1); }
+    fn c04_boxed_ops_ok_22(s) { boxed_ops_ok(s, 2, 2); }
+    /// ... and all four combinations panic for every overflowing / underflowing pair
+    #[kani::should_panic] fn c04_boxed_add_ops_panic_11(s) { boxed_ops_panic(s, 1, 1, false); }
+    #[kani::should_panic] fn c04_boxed_add_ops_panic_12(s) { boxed_ops_panic(s, 1, 2, false); }
+    #[kani::should_panic] fn c04_boxed_add_ops_panic_21(s) { boxed_ops_panic(s, 2, 1, false); }
+    #[kani::should_panic] fn c04_boxed_add_ops_panic_22(s) { boxed_ops_panic(s, 2, 2, false); }
+    #[kani::should_panic] fn c04_boxed_sub_ops_panic_11(s) { boxed_ops_panic(s, 1, 1, true); }
+    #[kani::should_panic] fn c04_boxed_sub_ops_panic_12(s) { boxed_ops_panic(s, 1, 2, true); }
+    #[kani::should_panic] fn c04_boxed_sub_ops_panic_21(s) { boxed_ops_panic(s, 2, 1, true); }
+    #[kani::should_panic] fn c04_boxed_sub_ops_panic_22(s) { boxed_ops_panic(s, 2, 2, true); }
+    /// adc_assign / sbb_assign (any carry word), `+=` `-=` (value, reference); right-hand side not wider than the
+    /// receiver; the receiver keeps its precision
+    fn c04_boxed_assign_ok_11(s) { boxed_assign_ok(s, 1, 1); }
+    fn c04_boxed_assign_ok_21(s) { boxed_assign_ok(s, 2, 1); }
+    fn c04_boxed_assign_ok_22(s) { boxed_assign_ok(s, 2, 2); }
+    /// Wrapping<BoxedUint> `+=` `-=` (value, reference): wraps at the receiver's precision
+    fn c04_boxed_wrapping_assign_11(s) { boxed_wrapping_assign(s, 1, 1); }
+    fn c04_boxed_wrapping_assign_21(s) { boxed_wrapping_assign(s, 2, 1); }
+    fn c04_boxed_wrapping_assign_22(s) { boxed_wrapping_assign(s, 2, 2); }
+    #[kani::should_panic] fn c04_boxed_add_assign_panic_11(s) { boxed_assign_panic(s, 1, 1, false); }
+    #[kani::should_panic] fn c04_boxed_add_assign_panic_21(s) { boxed_assign_panic(s, 2, 1, false); }
+    #[kani::should_panic] fn c04_boxed_add_assign_panic_22(s) { boxed_assign_panic(s, 2, 2, false); }
+    #[kani::should_panic] fn c04_boxed_sub_assign_panic_11(s) { boxed_assign_panic(s, 1, 1, true); }
+    #[kani::should_panic] fn c04_boxed_sub_assign_panic_21(s) { boxed_assign_panic(s, 2, 1, true); }
+    #[kani::should_panic] fn c04_boxed_sub_assign_panic_22(s) { boxed_assign_panic(s, 2, 2, true); }
+    /// rustdoc of adc_assign / sbb_assign: "Panics if `rhs` has a larger precision than `self`" - for every value
+    /// (holds only because Kani builds with debug assertions: the check is a `debug_assert!`)
+    #[kani::should_panic]
+    fn c04_boxed_adc_assign_wider_panics(s) {
+        let a = s.u64(); let b = s.u128(); let cin = s.u64();
+        let mut x = bx(1, a as u128);
+        if s.bool() { let _ = x.adc_assign(&bx(2, b), Limb(cin)); } else { let _ = x.sbb_assign(&bx(2, b), Limb(cin)); }
+        no_return();
+    }
+    /// `BoxedUint op Uint<N>` (6 routes each for + and -): U64 with a receiver of 1 or 2 limbs, U128 with a receiver
+    /// of 2 limbs: exact, receiver precision kept
+    fn c04_boxed_uint_rhs_ok_11(s) { boxed_uint_rhs_ok(s, 1, 1); }
+    fn c04_boxed_uint_rhs_ok_21(s) { boxed_uint_rhs_ok(s, 2, 1); }
+    fn c04_boxed_uint_rhs_ok_22(s) { boxed_uint_rhs_ok(s, 2, 2); }
+    #[kani::should_panic] fn c04_boxed_uint_rhs_add_panic_11(s) { boxed_uint_rhs_panic(s, 1, 1, false); }
+    #[kani::should_panic] fn c04_boxed_uint_rhs_add_panic_21(s) { boxed_uint_rhs_panic(s, 2, 1, false); }
+    #[kani::should_panic] fn c04_boxed_uint_rhs_add_panic_22(s) { boxed_uint_rhs_panic(s, 2, 2, false); }
+    #[kani::should_panic] fn c04_boxed_uint_rhs_sub_panic_11(s) { boxed_uint_rhs_panic(s, 1, 1, true); }
+    #[kani::should_panic] fn c04_boxed_uint_rhs_sub_panic_21(s) { boxed_uint_rhs_panic(s, 2, 1, true); }
+    #[kani::should_panic] fn c04_boxed_uint_rhs_sub_panic_22(s) { boxed_uint_rhs_panic(s, 2, 2, true); }
+    /// `BoxedUint op u8/u16/u32/u64` (receiver 1 or 2 limbs) and `op u128` (receiver 2 limbs); value, reference, assigning
+    fn c04_boxed_prim_rhs_ok_1(s) { boxed_prim_rhs_ok(s, 1, 4); }
+    fn c04_boxed_prim_rhs_ok_2(s) { boxed_prim_rhs_ok(s, 2, 5); }
+    #[kani::should_panic] fn c04_boxed_prim_rhs_add_panic_1(s) { boxed_prim_rhs_panic(s, 1, 4, false); }
+    #[kani::should_panic] fn c04_boxed_prim_rhs_add_panic_2(s) { boxed_prim_rhs_panic(s, 2, 5, false); }
+    #[kani::should_panic] fn c04_boxed_prim_rhs_sub_panic_1(s) { boxed_prim_rhs_panic(s, 1, 4, true); }
+    #[kani::should_panic] fn c04_boxed_prim_rhs_sub_panic_2(s) { boxed_prim_rhs_panic(s, 2, 5, true); }
+
+    // Right-hand side wider than the receiver (receiver 1 limb, rhs type 2 limbs). Every such form goes through
+    // `BoxedUint::adc_assign` / `sbb_assign`, whose rustdoc says "Panics if `rhs` has a larger precision than `self`":
+    // the documented behaviour is a panic for EVERY value of the wider operand (since fix ddac7e1 in both build profiles;
+    // before it a release build silently dropped the high limbs: 5 += 2^64 gave 5).
+    /// `x += &wide`, `x -= &wide` with a 2-limb BoxedUint: documented precision panic, whatever the values
+    #[kani::should_panic]
+    fn c04_boxed_wider_rhs_assign_panics(s) {
+        let (a, b, f, sub) = (s.u64(), s.u64(), s.u8(), s.bool()); s.assume(f < 2);
+        let x = bx(1, a as u128); let y = bx(2, b as u128);
+        let _ = if sub { boxed_sub_assign(f, &x, &y) } else { boxed_add_assign(f, &x, &y) };
+        no_return();
+    }
+    /// `x + U128`, `x - U128` (6 routes): documented precision panic
+    #[kani::should_panic]
+    fn c04_boxed_wider_rhs_uint_panics(s) {
+        let (a, b, f, sub) = (s.u64(), s.u64(), s.u8(), s.bool()); s.assume(f < 6);
+        let x = bx(1, a as u128);
+        let _ = if sub { boxed_sub_uint(f, &x, mk128(b as u128)) } else { boxed_add_uint(f, &x, mk128(b as u128)) };
+        no_return();
+    }
+    /// `x + p`, `x - p`, `x += p`, `x -= p` with p: u128 and a 1-limb receiver: documented precision panic
+    #[kani::should_panic]
+    fn c04_boxed_wider_rhs_u128_panics(s) {
+        let (a, b, f, sub) = (s.u64(), s.u64(), s.u8(), s.bool()); s.assume(f < 3);
+        let x = bx(1, a as u128);
+        let _ = if sub { boxed_sub_prim(4, f, &x, b as u128) } else { boxed_add_prim(4, f, &x, b as u128) };
+        no_return();
+    }
+    /// ... and every wider-rhs form panics when the true result is outside [0, 2^64) (rhs >= 2^64 included)
+    #[kani::should_panic]
+    fn c04_boxed_wider_rhs_panic(s) {
+        let (a, b, route, f, sub) = (s.u64(), s.u128(), s.u8(), s.u8(), s.bool());
+        s.assume(route < 3 && f < 6);
+        s.assume(if sub { (a as u128) < b } else { (a as u128).checked_add(b).map_or(true, |t| t > u64::MAX as u128) });
+        let x = bx(1, a as u128);
+        let _ = match (route, sub) {
+            (0, false) => boxed_add_assign(f & 1, &x, &bx(2, b)),
+            (0, true) => boxed_sub_assign(f & 1, &x, &bx(2, b)),
+            (1, false) => boxed_add_uint(f, &x, mk128(b)),
+            (1, true) => boxed_sub_uint(f, &x, mk128(b)),
+            (_, false) => boxed_add_prim(4, f % 3, &x, b),
+            (_, true) => boxed_sub_prim(4, f % 3, &x, b),
+        };
+        no_return();
     }
 }
